@@ -16,6 +16,7 @@ mod tl;
 mod c11;
 mod c03;
 mod c17;
+mod c18;
 
 fn main() {
     let argv: Vec<String> = std::env::args().collect();
@@ -40,6 +41,7 @@ fn main() {
         "c11" => c11::run(&a),
         "c03" => c03::run(&a),
         "c17" => c17::run(&a),
+        "c18" => c18::run(&a),
         x => { eprintln!("unknown subcommand {x}"); std::process::exit(2); }
     }
 }
